@@ -101,7 +101,7 @@ namespace Pistache::Http
 
             iterator operator++(int)
             {
-                iterator ret(iter_storage, iter_storage_end);
+                iterator ret(*this);
                 ++iter_cookie_values;
                 if (iter_cookie_values == iter_storage->second.end())
                 {
